@@ -222,6 +222,8 @@ impl<'a> Gen<'a> {
             if self.k.comments != Comments::None && self.rng.chance(1, 8) { out.push(' '); let c = self.comment(false); out.push_str(&c); if !c.ends_with('\n') { out.push_str(self.nl()); } } else { out.push_str(self.nl()); }
         }
         let last = if self.depth > 0 && self.rng.chance(1, 5) { 1 } else if self.depth > 1 && self.rng.chance(1, 12) { 2 } else { 0 };
+        // an empty line in front of the last statement (it may be the only statement of its block)
+        if last != 0 && self.rng.chance(1, 6) { out.push_str(self.nl()); }
         if last == 1 {
             let e = if self.rng.chance(1, 3) { String::new() } else { format!(" {}", self.exprs(2)) };
             out.push_str(&format!("{}return{}{}{}", self.indent(), e, if self.rng.chance(1, 8) { ";" } else { "" }, self.nl()));
